@@ -26,7 +26,8 @@ def prims (hs : List OpsElim.Hint) (hxs : List Var) (b : Bool) : Prims PTerm := 
 
 def both (f : Prims PTerm → Except Err (Contract PTerm)) (hs : List OpsElim.Hint) (hxs : List Var) : Json :=
   ((jRes (f (prims hs hxs true))).setObjVal! "alt" (jRes (f (prims hs hxs false)))).setObjVal! "near"
-    (Json.arr #[jRes (f (primsO (oracleShift (-nearD)) hs hxs true)), jRes (f (primsO (oracleShift nearD) hs hxs false))])
+    (Json.arr #[jRes (f (primsO (oracleShift (-nearD)) hs hxs true)), jRes (f (primsO (oracleShift nearD) hs hxs false)),
+                jRes (f (primsO oracleBox hs hxs true)), jRes (f (primsO oracleBox hs hxs false))])
 
 def handleAlg (op : String) (j : Json) : Option (Except String Json) :=
   let run (f : Except String Json) : Option (Except String Json) := some f
